@@ -332,6 +332,17 @@ def _after_build(pid, args, seed, t0, reg, known, tier, facts, facts_changed, bu
         if args.replay:
             case = json.load(open(args.replay))
             res = hmod.replay(ctx, case)
+        elif deep and tier != 'thorough':
+            # source drift / broken obligation on the quick tier: look at quick depth first and
+            # go deep only if that finds nothing (a failing tree is then reported fast)
+            ctx.deep = False
+            res = hmod.run(ctx)
+            if not (res.get('violations') or res.get('disagreements')):
+                first = res.get('evaluations', 0)
+                ctx.deep = True
+                ctx.rng = random.Random(seed + 1)
+                res = hmod.run(ctx)
+                res['evaluations'] = res.get('evaluations', 0) + first
         else:
             res = hmod.run(ctx)
     except (MachineryError, subprocess.TimeoutExpired):
